@@ -148,6 +148,54 @@ def aggregate(outs):
     return agg
 
 
+def run_bounded(prop, tier, seed):
+    """bounded stand-ins registered for the property in /verif/bounded.json: randomized
+    differential tests of the real code (go test with an overlay; nothing is written to the
+    repository). Returns (entries for the evidence, violation dicts, output lines)."""
+    path = os.path.join(VERIF, 'bounded.json')
+    if not os.path.exists(path):
+        return [], [], []
+    items = [b for b in json.load(open(path)) if b.get('property') == prop]
+    ev, viol, lines = [], [], []
+    for b in items:
+        iters = b.get('iters_thorough' if tier == 'thorough' else 'iters_quick', 1000)
+        wd = os.path.join(WORK, 'bounded', prop)
+        os.makedirs(wd, exist_ok=True)
+        ov = os.path.join(wd, b['name'] + '.overlay.json')
+        target = os.path.join(REPO, b['pkg'], 'zz_verif_bounded_%s_test.go' % b['name'])
+        with open(ov, 'w') as f:
+            json.dump({'Replace': {target: os.path.join(VERIF, b['file'])}}, f)
+        env = dict(os.environ)
+        env.update({'GOFLAGS': '-mod=mod', 'GOPROXY': 'off', 'VERIF_BOUNDED_ITERS': str(iters), 'VERIF_SEED': str(seed)})
+        env.pop('GOTOOLCHAIN', None)
+        env.pop('GOSUMDB', None)
+        t0 = time.time()
+        cmd = ['go', 'test', '-overlay', ov, '-vet=off', '-count=1', '-timeout', '%ds' % b.get('timeout_s', 600),
+               '-run', b['run'], './' + b['pkg'] + '/']
+        import subprocess
+        pr = subprocess.run(cmd, cwd=REPO, env=env, capture_output=True, text=True)
+        dt = round(time.time() - t0, 2)
+        out = (pr.stdout + pr.stderr)
+        ran = ('ok ' in out or 'ok\t' in out) and 'no tests to run' not in out
+        entry = {'name': b['name'], 'kind': 'bounded (randomized differential test of the real code; not a proof)',
+                 'bound': b['bound'], 'iterations': iters, 'seed': seed, 'seconds': dt,
+                 'result': 'passed' if pr.returncode == 0 and ran else 'failed', 'cmd': ' '.join(cmd)}
+        ev.append(entry)
+        if pr.returncode != 0 or not ran:
+            rp = os.path.join(WORK, 'replay', prop)
+            os.makedirs(rp, exist_ok=True)
+            rfile = os.path.join(rp, 'bounded.%s.json' % b['name'])
+            fail = [l.strip() for l in out.split('\n') if 'FAILING-INPUT' in l]
+            with open(rfile, 'w') as f:
+                json.dump({'property': prop, 'obligation': 'bounded.' + b['name'], 'kind': 'bounded', 'bounded': b,
+                           'iterations': iters, 'seed': seed, 'failing_input': fail[:3], 'output': out[-6000:],
+                           'note': 'bounded stand-in failed on the real code'}, f, indent=1)
+            found = bool(fail)
+            viol.append({'obligation': 'bounded.' + b['name'], 'replay': rfile, 'failing_input_found': found, 'verdict': 'failed'})
+            lines.append('VIOLATION property=%s replay=%s%s' % (prop, rfile, '' if found else ' no-failing-input-found'))
+    return ev, viol, lines
+
+
 def main(argv):
     global _PROG, _TIER, _SEED
     if len(argv) >= 2 and argv[0] == '--replay':
@@ -271,6 +319,9 @@ def main(argv):
             line += ' no-failing-input-found'
         violations.append({'obligation': n, 'replay': path, 'failing_input_found': found, 'verdict': a['verdict']})
         lines.append(line)
+    bounded_ev, bviol, blines = run_bounded(prop, _TIER, _SEED)
+    violations += bviol
+    lines += blines
     for l in kf_lines:
         print(l)
     for l in lines:
@@ -333,7 +384,7 @@ def main(argv):
             'stale': stale,
             'solver_seconds_total': round(sum(a['seconds'] for a in agg.values()), 3),
             'export_seconds': round(texport, 2),
-            'bounded': [],
+            'bounded': bounded_ev,
             'evaluations': nobl, 'distinct_nontrivial': max(2, sum(1 for a in agg.values() if a['kind'] != 'panic')),
         },
         'assumptions': assumptions,
@@ -343,8 +394,8 @@ def main(argv):
     }
     with open(evpath, 'w') as f:
         json.dump(ev, f, indent=1, default=str)
-    print('%s %s: %d obligations, %d discharged, %d violations, %d stale, %d known findings reported, %.1fs' %
-          (prop, _TIER, nobl, ndis, len(violations), len(stale), len(kf_lines), wall))
+    print('%s %s: %d obligations, %d discharged, %d violations, %d stale, %d known findings reported, %d bounded stand-ins, %.1fs' %
+          (prop, _TIER, nobl, ndis, len(violations), len(stale), len(kf_lines), len(bounded_ev), time.time() - t0))
     if engine_errors:
         return 2
     if nobl == 0:
